@@ -15,8 +15,10 @@
    of the non-default cells), and nothing else: definitions only, proofs are in
    OdsGrid_proofs.v.
 
-   What is NOT modelled here: XML tokenisation, the zip container, the text content grammar of a
-   cell beyond <text:p>text</text:p>* (property C19 owns it), str::parse::<f64> (a Float carries
+   What is NOT modelled here: XML tokenisation, the zip container, the text grammar inside a
+   paragraph (property C19 owns it: a paragraph is its text here; the children of a cell —
+   paragraphs, annotation, anchored drawing objects, indentation, comments — and what stands
+   between the cells of a row are modelled: xitem / ritem), str::parse::<f64> (a Float carries
    the attribute text; the drivers convert it), allocation failure. *)
 From Calamine Require Import Prelude Range.
 Open Scope N_scope.
@@ -468,17 +470,80 @@ Definition repeat_attr (a : attrs) (k : str) : outcome N :=
   | Some v => match parse_usize v with Some n => Ok n | None => Err ERR_PARSEINT end
   end.
 
+(* the children of a cell element as they stand in content.xml (ODF 1.2 part 1, 9.1.4): its
+   paragraphs, an annotation, the drawing objects anchored to it (images, shapes, text boxes: they
+   hold paragraphs of their own), and between them the white space of an indented file and
+   comments.  The text grammar inside a paragraph is property C19's (XmlText.v); here a paragraph
+   is its text. *)
+Inductive xitem : Type :=
+| XPara (s : str)                            (* <text:p>text</text:p> *)
+| XWs (ws : str)                             (* white space between the children *)
+| XComment                                   (* <!-- … --> *)
+| XShape (name : str) (paras : list str)     (* <draw:…> … <text:p>…</text:p> … </draw:…> *)
+| XAnnot (paras : list str).                 (* <office:annotation> … </office:annotation> *)
+
+(* the content loop of get_datatype over the children: `first_paragraph`, '\n' before every
+   text:p child but the first, its text appended; character data outside a paragraph, comments,
+   the subtree of a drawing object and the annotation add nothing (fixes ODS-1, ODS-3) *)
+Definition xitem_after (sf : str * bool) (it : xitem) : str * bool :=
+  match it with
+  | XPara p => ((if snd sf then fst sf else fst sf ++ [10]) ++ p, false)
+  | _ => sf
+  end.
+Definition content_loop (its : list xitem) : str := fst (fold_left xitem_after its ([], true)).
+
+(* S: the paragraphs of the cell itself, in order *)
+Definition paras_of (its : list xitem) : list str :=
+  flat_map (fun it => match it with XPara p => [p] | _ => [] end) its.
+
+Definition get_datatype_items (a : attrs) (its : list xitem) : data * str :=
+  let '(is_string, is_set, val, formula) := ods_attrs a false false DEmpty [] in
+  if negb is_set && is_string then (DString (content_loop its), formula) else (val, formula).
+
 (* a cell element as it stands in content.xml *)
 Record xcell : Type := mkXCell {
   xc_covered : bool;            (* table:covered-table-cell *)
   xc_attrs : attrs;
-  xc_paras : list str }.        (* the text of its text:p children *)
+  xc_items : list xitem }.      (* its children *)
+Definition xc_paras (x : xcell) : list str := paras_of (xc_items x).
 
-Record xrow : Type := mkXRow { xr_attrs : attrs; xr_cells : list xcell }.
+(* what stands between the start and the end tag of a table:table-row, as the loop of read_row
+   sees it: cell elements; text (the white space of an indented file) and comments, which it
+   passes over (fix ODS-3); anything else — a CDATA section, a processing instruction, the tag of
+   another element — is OdsError::Mismatch *)
+Inductive ritem : Type :=
+| RCell (x : xcell)
+| RText (ws : str)
+| RComment
+| ROther.
+
+Record xrow : Type := mkXRow { xr_attrs : attrs; xr_items : list ritem }.
+
+(* E: the cells of a row under any indentation *)
+Definition xr_cells (x : xrow) : list xcell :=
+  flat_map (fun it => match it with RCell c => [c] | _ => [] end) (xr_items x).
+Definition ritem_ok (it : ritem) : bool := match it with ROther => false | _ => true end.
+Definition is_xml_ws (c : N) : bool := (c =? 32) || (c =? 9) || (c =? 10) || (c =? 13).
+(* legal: what an XML document that is valid against the ODF schema can have between the cells
+   and between the children of a cell *)
+Definition ritem_legal (it : ritem) : bool :=
+  match it with
+  | RCell c => forallb (fun x => match x with XWs ws => forallb is_xml_ws ws | _ => true end) (xc_items c)
+  | RText ws => forallb is_xml_ws ws
+  | RComment => true
+  | ROther => false
+  end.
+Definition xrow_legal (x : xrow) : bool := forallb ritem_legal (xr_items x).
+
+(* the flat form of a cell / a row: the paragraphs alone, the cells alone (what a writer that
+   does not indent and a sheet without comments and drawing objects have) *)
+Definition flat_cell (c : xcell) : xcell := mkXCell (xc_covered c) (xc_attrs c) (map XPara (xc_paras c)).
+Definition flat_row (x : xrow) : xrow := mkXRow (xr_attrs x) (map (fun c => RCell (flat_cell c)) (xr_cells x)).
+Definition row_ok (x : xrow) : bool := forallb ritem_ok (xr_items x).
 
 Definition read_xcell (x : xcell) : outcome (cell_elem data str) :=
   do rep <- cell_repeat_attr (xc_attrs x);
-  let '(v, f) := get_datatype (xc_attrs x) (xc_paras x) in
+  let '(v, f) := get_datatype_items (xc_attrs x) (xc_items x) in
   Ok (mkCell rep v f (xc_covered x)).
 
 Fixpoint map_outcome (A B : Type) (f : A -> outcome B) (l : list A) : outcome (list B) :=
@@ -487,9 +552,19 @@ Fixpoint map_outcome (A B : Type) (f : A -> outcome B) (l : list A) : outcome (l
   | x :: t => do y <- f x; do ys <- map_outcome f t; Ok (y :: ys)
   end.
 
+(* the loop of read_row, item by item *)
+Fixpoint read_ritems (its : list ritem) : outcome (list (cell_elem data str)) :=
+  match its with
+  | [] => Ok []                                              (* End table:table-row *)
+  | RCell x :: r => do c <- read_xcell x; do cs <- read_ritems r; Ok (c :: cs)
+  | RText _ :: r => read_ritems r
+  | RComment :: r => read_ritems r
+  | ROther :: _ => Err ERR_MISMATCH
+  end.
+
 Definition read_xrow (x : xrow) : outcome (row_elem data str) :=
   do rep <- repeat_attr (xr_attrs x) a_rows_repeated;
-  do cs <- map_outcome read_xcell (xr_cells x);
+  do cs <- read_ritems (xr_items x);
   Ok (mkRow rep cs).
 
 Definition ods_read_table := read_table DEmpty (@nil N) data_is_empty str_is_empty.
